@@ -1,22 +1,32 @@
 #!/bin/bash
-# Usage: tools/confirm_seed.sh <dir containing patch.diff and seed_demo.rs> <name>
-# Confirms in a scratch worktree: builds, existing suite green with the change, demo fails with / passes without.
+# Usage: tools/confirm_seed.sh <dir containing patch.diff, seed_demo.rs, meta.json> <name>
+# Confirms in a scratch worktree of /repo (removed afterwards): the change applies and builds, the
+# existing suite stays green with it, the demonstration fails with the change and passes without.
+# Prints one JSON line.  Extra environment for the demo: meta.json "features" (cargo features) and
+# "rustflags" (e.g. "--cfg miri" to select the portable scanner).
 set -u
-SRC=$1; NAME=$2
+SRC=$(readlink -f $1); NAME=$2
 WT=/tmp/confirm-$NAME
 git -C /repo worktree remove --force $WT >/dev/null 2>&1
 git -C /repo worktree add -q --detach $WT HEAD || exit 2
 cd $WT
 export CARGO_TARGET_DIR=$WT/target CARGO_NET_OFFLINE=true
+FEAT=$(python3 -c "import json,sys;print((json.load(open('$SRC/meta.json')).get('features') or '').replace(' ',','))" 2>/dev/null)
+RFL=$(python3 -c "import json,sys;print(json.load(open('$SRC/meta.json')).get('rustflags') or '')" 2>/dev/null)
+XENV=$(python3 -c "import json,sys;print(json.load(open('$SRC/meta.json')).get('env') or '')" 2>/dev/null)
+COMPILE=$(python3 -c "import json,sys;print(int(bool(json.load(open('$SRC/meta.json')).get('compile_demo'))))" 2>/dev/null)
+[ -n "$XENV" ] && export $XENV
+FARG=""; [ -n "$FEAT" ] && FARG="--features $FEAT"
 R="{\"name\":\"$NAME\""
-if ! git apply $SRC/patch.diff 2>/tmp/confirm-$NAME.err; then echo "$R,\"apply\":false}"; git -C /repo worktree remove --force $WT; exit 1; fi
+if ! git apply $SRC/patch.diff 2>/tmp/confirm-$NAME.err; then echo "$R,\"apply\":false}"; cd /; git -C /repo worktree remove --force $WT; exit 1; fi
 cargo build --offline --features rayon,serde,raw-entry,rustc-internal-api >/dev/null 2>&1; B=$?
-cargo test --offline --no-fail-fast >$WT/suite.log 2>&1; S=$?
+cargo test --workspace --offline --no-fail-fast >$WT/suite.log 2>&1; S=$?
 FAILED=$(grep -c "^test .* FAILED" $WT/suite.log)
+PASSED=$(grep "^test result" $WT/suite.log | sed -n 's/.* \([0-9]*\) passed.*/\1/p' | paste -sd+ | bc)
 cp $SRC/seed_demo.rs tests/seed_demo.rs
-timeout 300 cargo test --offline --test seed_demo >$WT/demo_with.log 2>&1; DW=$?
+RUSTFLAGS="$RFL" timeout 600 cargo test --offline $FARG --test seed_demo >$WT/demo_with.log 2>&1; DW=$?
 git checkout -q -- src
-timeout 300 cargo test --offline --test seed_demo >$WT/demo_without.log 2>&1; DWO=$?
-echo "$R,\"apply\":true,\"build_rc\":$B,\"suite_rc\":$S,\"suite_failed\":$FAILED,\"demo_with_rc\":$DW,\"demo_without_rc\":$DWO}"
-tail -5 $WT/demo_with.log | sed 's/^/    with: /' | cut -c1-200
+RUSTFLAGS="$RFL" timeout 600 cargo test --offline $FARG --test seed_demo >$WT/demo_without.log 2>&1; DWO=$?
+echo "$R,\"apply\":true,\"build_rc\":$B,\"suite_rc\":$S,\"suite_failed\":$FAILED,\"suite_passed\":${PASSED:-0},\"demo_with_rc\":$DW,\"demo_without_rc\":$DWO,\"features\":\"$FEAT\",\"rustflags\":\"$RFL\",\"compile_demo\":${COMPILE:-0}}"
+grep -E "panicked|assert|FAILED|error(\[|:)" $WT/demo_with.log | head -4 | sed 's/^/    with: /' | cut -c1-220
 cd /; git -C /repo worktree remove --force $WT
